@@ -12,6 +12,8 @@ pub(crate) struct DecisionTracker {
 
 impl DecisionTracker {
     pub(crate) fn clear(&mut self) {
+        #[cfg(feature = "verif-hooks")]
+        super::verif::cleared();
         *self = Default::default();
     }
 
@@ -54,6 +56,8 @@ impl DecisionTracker {
     pub(crate) fn try_add_decision(&mut self, decision: Decision, level: u32) -> Result<bool, ()> {
         match self.map.value(decision.variable) {
             None => {
+                #[cfg(feature = "verif-hooks")]
+                super::verif::assigned(&decision, level);
                 self.map.set(decision.variable, decision.value, level);
                 self.stack.push(decision);
                 Ok(true)
@@ -80,6 +84,8 @@ impl DecisionTracker {
 
     pub(crate) fn undo_last(&mut self) -> (Decision, u32) {
         let decision = self.stack.pop().unwrap();
+        #[cfg(feature = "verif-hooks")]
+        super::verif::undone(decision.variable);
         self.map.reset(decision.variable);
 
         self.propagate_index = self.stack.len();
